@@ -26,6 +26,8 @@ RULE = ("Exhaustive product over 15 service types x interface multisets of size 
         "is on a boundary (count = min-1, min, max, max+1; sites = limit, limit+1; one constrained property present; "
         "declared site differs) . Distinct by hash of the case.")
 ASSUMPTIONS = ["for service types with num_sites = NO_LIMIT the library does not trace sites: no site clause there",
+               "re-siting history: a site recorded by an earlier validation counts as the service's declared site "
+               "afterwards (read back from the model), also for the implicit services of the moved node",
                "num_instances is NO_LIMIT for every type (the clause exists in the predicate but is unreachable)",
                "implicit component / facility services of the built slice always satisfy their own constraints"]
 BUDGET = {"quick": 300, "thorough": 3000}
@@ -137,6 +139,7 @@ def enumerate_cases(tier):
     yield from _rehome_cases()
     yield from _twin_cases()
     yield from _owned_cases()
+    yield from _resite_cases()
     for t in PINNED_SERVICE:
         for n in range(0, 5):
             if t == "PortMirror" and n != 1:
@@ -189,6 +192,19 @@ def _owned_cases():
                                                             "declared": declared, "props": [], "owner": owner}]}
 
 
+def _resite_cases():
+    """validate - move a connected node to another site - validate again"""
+    for t in PINNED_SERVICE:
+        if t == "PortMirror":
+            continue
+        for n in (1, 2, 3):
+            for pl in _placements(n):
+                for declared in (None, "match"):
+                    for r in range(n):
+                        yield {"kind": "svc", "resite": r, "services": [
+                            {"type": t, "ifs": [["DedicatedPort", s] for s in pl], "declared": declared, "props": []}]}
+
+
 def _twin_cases():
     """interfaces that end up with the SAME library-generated service-port name ('<node>-<interface>'): sub-interfaces
     of one name on different ports of one node. Counting must go by interface, not by name."""
@@ -237,7 +253,9 @@ def predict_service(svc, guardrail_refused):
         if len(sites) > c["sites"]:
             return False, "max-sites", None
     declared = None
-    if svc["declared"] == "match" and ifs:
+    if "declared_site" in svc:           # (a second validation: what the service carries now, declared or recorded)
+        declared = svc["declared_site"]
+    elif svc["declared"] == "match" and ifs:
         declared = SITES[ifs[0][1]]
     elif svc["declared"] == "other" or (svc["declared"] == "match" and not ifs):
         declared = "OTHERSITE"
@@ -289,6 +307,7 @@ def run_case(case):
         n_nodes = [0]
 
         twin_home = {}
+        owner_node_of = {}          # serial number of mk_interface call -> the node made for that interface
 
         def mk_interface(kind, site_idx, twins=None):
             n_nodes[0] += 1
@@ -309,6 +328,7 @@ def run_case(case):
                 f = t.add_facility(name=f"fac{k}", site=site)
                 return f.interface_list[0]
             node = t.add_node(name=f"n{k}", site=site)
+            owner_node_of[k] = node
             if kind == "TrunkPort":
                 # a port of a node-level service (as switches have), not one of the kinds L2PTP permits
                 ns = node.add_network_service(name=f"nsvc{k}", nstype=ServiceType.OVS)
@@ -461,6 +481,44 @@ def run_case(case):
         for e in expectations:
             labels.add("reason-" + e[3])
             labels.add("type-" + e[0]["type"])
+        # ---- history: validate, move one of the connected nodes to another site, validate again. The second verdict
+        #      is the one of the topology as it is THEN (the service carries whatever site it declared or the first
+        #      validation recorded - read back from the model, not predicted)
+        svc0 = case["services"][0]
+        if single and not v and case.get("resite") is not None and svc0["type"] != "PortMirror" and \
+                not svc0.get("twins") and not svc0.get("late") and not svc0.get("rehome") and svc0["ifs"]:
+            r = case["resite"] % len(svc0["ifs"])
+            node = owner_node_of.get(r + 1)      # single service, no extra interfaces: call number = position + 1
+            if node is not None and svc0["ifs"][r][0] != "FacilityPort":
+                new_site = (svc0["ifs"][r][1] + 1 + case["resite"] // 7) % len(SITES)
+                if new_site == svc0["ifs"][r][1]:
+                    new_site = (new_site + 1) % len(SITES)
+                node.site = SITES[new_site]
+                svc2 = dict(svc0, ifs=[list(x) for x in svc0["ifs"]])
+                svc2["ifs"][r][1] = new_site
+                carried = expectations[0][1].site
+                svc2["declared_site"] = carried if carried else None
+                ok2, reason2, inferred2 = predict_service(svc2, False)
+                # the moved node's own (component / node level) services are single-site services too: one that carries
+                # a site recorded by the first validation now disagrees with the site of its ports
+                implicit = [s_ for comp in node.components.values() for s_ in comp.network_services.values()] + \
+                    list(node.network_services.values())
+                if any(s_.site and s_.site != SITES[new_site] for s_ in implicit):
+                    ok2, reason2 = False, "declared-site-mismatch"
+                try:
+                    t.validate()
+                    raised2 = None
+                except Exception as e:
+                    raised2 = e
+                labels.add("revalidated-after-resiting")
+                if raised2 is None and not ok2:
+                    v.append((f"C10/revalidate/accepted-but-table-rejects/{reason2}",
+                              f"after moving interface {r}'s node to {SITES[new_site]} validate() accepted, predicate "
+                              f"rejects ({reason2}); service carried site {carried!r} | {svc0}"))
+                elif raised2 is not None and ok2:
+                    v.append((f"C10/revalidate/rejected-but-table-allows/{svc0['type']}",
+                              f"after moving interface {r}'s node to {SITES[new_site]} validate() raised "
+                              f"{type(raised2).__name__}: {raised2}; service carried site {carried!r} | {svc0}"))
         if not single:
             labels.add("multi-service")
     finally:
